@@ -59,8 +59,10 @@ Lemma async_errnos_match :
   rust_async_default_errno = ENOSYS /\ rust_commit_skips_unbuffered = true.
 Proof. repeat split; reflexivity. Qed.
 
-(* the code as it is: all four defects present.  When a fix lands this lemma (and the C20_refuted_* witnesses
-   that rest on the same facts) stops checking, while C20_partial keeps holding for the new shape. *)
+(* the code as it is (after fix: commits 2dcabb6 and 45bf06c): the gate mirrors the sync gate, async_commit
+   skips an unbuffered writer; the size gate of async_write is still there.  When that changes this lemma (and
+   the C20_refuted witness that rests on the same fact) stops checking, while C20_partial_any_shape keeps
+   holding for the new shape. *)
 Lemma code_shape_is :
-  code_shape = {| sh_gate_capacity := true; sh_gate_exempts_forget := false; sh_write_gate := true; sh_commit_skips := false |}.
+  code_shape = {| sh_gate_capacity := false; sh_gate_exempts_forget := true; sh_write_gate := true; sh_commit_skips := true |}.
 Proof. reflexivity. Qed.
